@@ -44,6 +44,9 @@ pub struct Verdict {
     pub harness_error: Option<String>,
     /// observations that are reported but never judged
     pub notes: Vec<String>,
+    /// for single-run checks: the decision list of the failing run (participant ids)
+    #[serde(default)]
+    pub schedule: Vec<u32>,
 }
 
 /// One property's workload generator, oracle and shrinker. Cases are JSON values so that the
@@ -236,6 +239,40 @@ pub fn minimise(check: &dyn Check, case: &Value, class: &str, max_steps: usize) 
         }
     }
     (cur, steps)
+}
+
+/// Replace the seeded strategy of a single-run case by the explicit decision list of its failing
+/// run, then cut that list down to the shortest prefix that still fails the same way (the rest
+/// of the run follows lowest-id-first).
+pub fn minimise_schedule(check: &dyn Check, case: &Value, class: &str) -> Option<Value> {
+    let v0 = check.execute(case);
+    if v0.schedule.is_empty() || v0.violation.as_ref().is_none_or(|x| x.class != class) {
+        return None;
+    }
+    let with = |n: usize| -> Value {
+        let mut c = case.clone();
+        if let Some(cfg) = c.get_mut("cfg") {
+            cfg["schedule"] = serde_json::json!(v0.schedule[..n].to_vec());
+            cfg["strategy"] = serde_json::json!("LowestId");
+        }
+        c
+    };
+    let fails = |c: &Value| check.execute(c).violation.is_some_and(|x| x.class == class);
+    let full = with(v0.schedule.len());
+    if !fails(&full) {
+        return None;
+    }
+    let (mut lo, mut hi) = (0usize, v0.schedule.len());
+    while lo < hi {
+        let mid = (lo + hi) / 2;
+        if fails(&with(mid)) {
+            hi = mid;
+        } else {
+            lo = mid + 1;
+        }
+    }
+    let best = with(hi);
+    if fails(&best) { Some(best) } else { Some(full) }
 }
 
 // ---------------------------------------------------------------------------------------
@@ -466,6 +503,7 @@ pub fn orchestrate(check: &dyn Check, opts: &CheckOpts) -> i32 {
         }
         // minimise and write the replay file
         let (min_case, steps) = minimise(check, case, &viol.class, 400);
+        let min_case = minimise_schedule(check, &min_case, &viol.class).unwrap_or(min_case);
         let mv = check.execute(&min_case);
         let (final_case, final_viol) = match mv.violation {
             Some(v) if v.class == viol.class => (min_case, v),
@@ -477,6 +515,8 @@ pub fn orchestrate(check: &dyn Check, opts: &CheckOpts) -> i32 {
             "format": 1, "property": id, "engine": check.engine(), "origin": origin,
             "class": final_viol.class, "detail": final_viol.detail,
             "case": final_case, "minimise_steps": steps,
+            "schedule_note": "case.cfg.schedule (when present) is the explicit decision list: participant ids chosen at successive scheduling decisions; where it ends the run continues lowest-id-first",
+            "faults": final_case.pointer("/cfg/faults").cloned().unwrap_or(Value::Null),
         });
         let _ = std::fs::write(&path, serde_json::to_string_pretty(&replay).unwrap_or_default());
         // the replay must reproduce in a fresh process
